@@ -17,11 +17,14 @@ import vf
 
 sys.path.insert(0, os.path.join(vf.VERIF, "extract"))
 import c05_tables  # noqa: E402
+import c05_keccak  # noqa: E402
+import c2lean  # noqa: E402
 
 PID = "C05"
-PROP_MODULES = ["UsualProofs.Props.C05"]
+PROP_MODULES = ["UsualProofs.Props.C05", "UsualProofs.Bridge.C05"]
 EXTRA_MODULES = ["UsualProofs.C05.Vectors"]
 GEN_REL = "lean/Usual/Gen/C05Tables.lean"
+GEN_KECCAK_REL = "lean/Usual/Gen/C05Keccak.lean"
 MAX_REPORTED = 4
 
 CRYPTO_SRCS = ["repo:usual/crypto/md5.c", "repo:usual/crypto/sha1.c", "repo:usual/crypto/sha256.c",
@@ -73,7 +76,25 @@ def build(ck):
         ck.proof_ok = False
         ck.cov["tables_regenerated"] = False
         ck.broken.append("table extraction failed: %r" % (e,))
-    ck.build_proofs(PROP_MODULES, extra_modules=EXTRA_MODULES, driver="drv_c05")
+    # T-tie: translate the unrolled keccak_f bodies (default 64-bit and KECCAK_32BIT) and the 32-bit lane
+    # interleaving networks statement by statement; UsualProofs/Bridge/C05.lean + C05/KeccakPaths.lean
+    # re-prove on this text that they are the FIPS 202 round / permutation
+    try:
+        ktext = c05_keccak.generate(vf.REPO)
+        vf.write_if_changed(os.path.join(vf.VERIF, GEN_KECCAK_REL), ktext)
+        kpinned = vf.git_committed(GEN_KECCAK_REL)
+        ck.cov["keccak_translation_regenerated"] = True
+        ck.cov["keccak_translation_equal_pinned"] = (kpinned is None) or (kpinned == ktext)
+        if kpinned is not None and kpinned != ktext:
+            ck.proof_ok = False
+            ck.broken.append("the translation of the unrolled keccak_f code paths differs from the pinned copy of "
+                             + GEN_KECCAK_REL + " (the round code of the default or the 32-bit build changed)")
+    except Exception as e:
+        ck.proof_ok = False
+        ck.cov["keccak_translation_regenerated"] = False
+        ck.broken.append("translation of the unrolled keccak_f code refused: %r" % (e,))
+    # T-tie for chacha_mix: lean/Usual/Gen/C05T.lean re-translated, UsualProofs/Bridge/C05T.lean re-checked
+    ck.build_proofs(PROP_MODULES + c2lean.ttie(ck, vf, PID), extra_modules=EXTRA_MODULES, driver="drv_c05")
     hsrc = os.path.join(vf.HARNESS, PID, "h.c")
 
     def comp(args):
@@ -481,15 +502,28 @@ def run(ck):
     ck.cov["trusted_base"] = [
         "Lean 4.33 kernel", "axioms: propext, Quot.sound, Classical.choice",
         "extract/c05_tables.py (regex extraction of constant tables from usual/crypto/*.c)",
+        "extract/c05_keccak.py (statement-by-statement translation of the unrolled keccak_f bodies and of the "
+        "32-bit xor_lane/extract networks: C expression grammar ^ & | ~ << >> rolN, refuses anything else)",
+        "bv_decide (LRAT-checked SAT certificates, one axiom per call, counted in bv_decide_axioms) for the "
+        "bit-level facts about the 32-bit interleaving network only (UsualProofs/Bridge/C05.lean); the per-round "
+        "and whole-permutation equalities are kernel-only",
         "correspondence harness harness/C05/h.c (3 builds) + generators in checks/C05.py",
         "transcription of RFC 1321 / FIPS 180-4 / FIPS 202 / ChaCha20 round functions into "
         "lean/Usual/C05 (pinned by the standards' vectors in UsualProofs/C05/Vectors.lean)",
         "third opinion only: Python hashlib/hmac (OpenSSL) and checks/c05_ref.py ChaCha20",
     ]
     ck.cov["partial"] = [
-        "compression functions / Keccak-f / ChaCha block function equal the standards by transcription "
-        "+ known-answer vectors + hashlib cross-check, not by theorem",
-        "equality of the three Keccak permutation code paths is by correspondence (every op, three builds)",
+        "compression functions of MD5/SHA-1/SHA-2 and the ChaCha block function equal the standards by transcription "
+        "+ known-answer vectors + hashlib cross-check, not by theorem (their constant tables ARE checked against the "
+        "standards' definitions: K/H as fractional roots of primes, MD5 T = floor(2^32|sin i|) by a rational "
+        "enclosure whose analytic premise - alternating series enclose their limit - is not formalised)",
+        "Keccak: the three code paths are proved equal to the FIPS 202 step mappings as transcribed in "
+        "Usual/C05/KeccakSpec.lean (keccak_paths_equal); that this transcription is FIPS 202 is pinned by the "
+        "rho/pi/RC table checks and the SHA-3 vectors; the KECCAK_SMALL path is a hand-written mirror of its loops, "
+        "the two unrolled paths are machine-translated from the C text; the loop skeleton `for (i = 0; i < 24; i += 4)` "
+        "is matched textually by the translator, not translated",
+        "the sponge bookkeeping of the 32-bit build on interleaved words is covered by keccak32_lane_access + "
+        "correspondence, there is no separate state32-level sponge model",
         "no out-of-bounds access: ASan + exact-size buffers in the harness, not a theorem",
         "MD digests: messages of 2^61 bytes or more are outside the theorem (64-bit bit counter in the code)",
     ]
